@@ -150,8 +150,12 @@ fn launch_analysis_thread(analyzer: Arc<Mutex<Analyzer>>, doc: a2kit::lang::Docu
         _ => Vec::new()
     };
     std::thread::spawn( move || {
+        #[cfg(a2kit_verif)]
+        a2kit::lang::server::verif_delay("start",doc.version);
         match analyzer.lock() {
             Ok(mut analyzer) => {
+                #[cfg(a2kit_verif)]
+                a2kit::lang::server::verif_delay("locked",doc.version);
                 let forced = match ws_scan {
                     WorkspaceScanMethod::None => false,
                     WorkspaceScanMethod::UseCheckpoints => {
